@@ -49,7 +49,8 @@ ASSUMPTIONS = [
     'dimensions None and {} are the same address',
     'caller preconditions respected: bulk loads are single-level and carry one dimensions dict (TileManager, '
     '_create_meta_tile), no duplicate address inside one bulk call, addresses inside a factor-2 pyramid '
-    '(0 <= x,y < 2**level, what grid.limit_tile guarantees), dimension values without path separators (C09 covers those), '
+    '(0 <= x,y < 2**level, what grid.limit_tile guarantees), dimension values may contain "/" (WMS time intervals) '
+    'but no ".." components or leading separators (leaving the cache directory is C09), '
     'dimensions only with the file backend (the loader refuses a dimension layer on every other backend)',
     'link_single_color_images stores one file per colour by design: single-colour payloads are canonical '
     '(same bytes for the same colour) and use RGB / RGBA / palette mode',
@@ -66,6 +67,7 @@ SIG_SQLITE_L0 = 'C05/sqlite-level/load_tiles/missing/level0'
 SIG_GPKG_L0 = 'C05/geopackage-level/load_tiles/missing/level0'
 SIG_QUADKEY_DIM = 'C05/file-quadkey/interference/dimension-sibling'
 SIG_ARCGIS_DIM = 'C05/file-arcgis/interference/dimension-sibling'
+SIG_DIM_SEPARATOR = 'C05/file/interference/dimension-separator-twin'
 LEVEL0_SIGS = {'sqlite-level': SIG_SQLITE_L0, 'geopackage-level': SIG_GPKG_L0}
 DIM_SIGS = {'file-quadkey': SIG_QUADKEY_DIM, 'file-arcgis': SIG_ARCGIS_DIM}
 
@@ -115,7 +117,17 @@ DIM_CHOICES = [
     {'time': T1, 'elevation': '700'}, {'time': T1, 'elevation': '850'}, {'time': T2, 'elevation': '700'},
     {'time': T1, 'elevation': 'default', 'dim_level': '1'}, {'time': T1, 'elevation': 'default', 'dim_level': '2'},
     None,
+    # a WMS time interval (start/end/period) and the value that differs from it only in the separator character:
+    # WMS GetMap forwards TIME / ELEVATION / DIM_* values unchecked, so both reach the cache as dimension values
+    {'time': '2020-08-25/2020-08-26/P1D'}, {'time': '2020-08-25_2020-08-26_P1D'},
 ]
+
+
+def separator_twins(a, b):
+    """two different dimension keys that become equal when path separators are replaced by '_'"""
+    def norm(k):
+        return tuple((n.replace('/', '_').replace('\\', '_'), v.replace('/', '_').replace('\\', '_')) for n, v in k)
+    return a != b and norm(a) == norm(b)
 
 
 def scratch_root():
@@ -660,11 +672,16 @@ class Executor(object):
                 return self._viol([op['op'], sym], '%s: %s right after %s of this address' % (where, detail, op['op']),
                                   key)
             rel = self._interference(key, mutated)
-            return self._viol(['interference', rel], '%s: %s after %s of %r' % (
+            v = self._viol(['interference', rel], '%s: %s after %s of %r' % (
                 where, detail, op['op'], [(k[0], dict(k[1]) or None) for k in mutated]))
+            if rel == 'dimension-separator-twin':
+                v.signature = SIG_DIM_SEPARATOR   # root cause is the shared path.dimensions_part, not one layout
+            return v
         return None
 
     def _interference(self, victim, mutated):
+        if any(m[0] == victim[0] and separator_twins(m[1], victim[1]) for m in mutated):
+            return 'dimension-separator-twin'
         if any(m[0] == victim[0] for m in mutated):
             return 'dimension-sibling'
         if self.v.get('link'):
@@ -696,8 +713,13 @@ class Executor(object):
             out.add('pool:xy>=65536')
         for a, b in itertools.combinations(sorted(set(coords)), 2):
             out.add('pool:' + coord_relation(a, b))
-        if len(set(k[1] for k in self.keys)) > 1:
+        dks = sorted(set(k[1] for k in self.keys))
+        if len(dks) > 1:
             out.add('pool:dimension-siblings')
+        if any('/' in v for dk in dks for _, v in dk):
+            out.add('pool:dimension-value-with-separator')
+        if any(separator_twins(a, b) for a, b in itertools.combinations(dks, 2)):
+            out.add('pool:dimension-separator-twins')
         return out
 
     def record(self):
@@ -733,7 +755,7 @@ def _valid(c):
 
 
 @st.composite
-def pools(draw, variant, collapse_dims):
+def pools(draw, variant, collapse_dims, no_twins=False):
     z = draw(st.sampled_from(LEVELS))
     base = (_xy(draw, z), _xy(draw, z), z)
     coords = [base]
@@ -770,6 +792,9 @@ def pools(draw, variant, collapse_dims):
     if variant.get('dims'):
         dims = draw(st.lists(st.sampled_from(DIM_CHOICES), min_size=2, max_size=3,
                              unique_by=lambda d: dimkey(d)))
+        if no_twins:
+            dims = [d for i, d in enumerate(dims)
+                    if not any(separator_twins(dimkey(d), dimkey(e)) for e in dims[:i])]
         if collapse_dims:
             dims = dims[:1]
     else:
@@ -844,6 +869,7 @@ PKIND = st.sampled_from(['u', 'u', 'u', 'sc', 'sc'])
 
 def make_machine(variant, env, exclude, link_value):
     collapse = DIM_SIGS.get(variant['family']) in exclude and variant.get('dims')
+    no_twins = SIG_DIM_SEPARATOR in exclude
 
     class CacheMachine(RuleBasedStateMachine):
         def __init__(self):
@@ -852,12 +878,15 @@ def make_machine(variant, env, exclude, link_value):
             self.counter = 0
             self.dead = False
 
-        @initialize(addrs=pools(variant, collapse))
+        @initialize(addrs=pools(variant, collapse, no_twins))
         def setup(self, addrs):
             self.ex = Executor(env, addrs, self._stats, exclude=exclude, link_value=link_value)
             if collapse:
                 self._stats.excluded['%s: dimension values collapsed to one per history (open finding %s)' % (
                     variant['family'], DIM_SIGS[variant['family']])] += 1
+            if no_twins and variant.get('dims'):
+                self._stats.excluded['dimension values differing only in "/" vs "_" never in one pool (open finding '
+                                     '%s)' % SIG_DIM_SEPARATOR] += 1
 
         def teardown(self):
             if self.ex is not None:
